@@ -41,4 +41,4 @@ res["caught_by"] = [c for c, r in res["checks"].items() if r["rc"] == 1]
 json.dump(res, open(os.path.join(d, "result.json"), "w"), indent=1)
 print(json.dumps({k: res[k] for k in ("name", "confirmed", "caught_by")}), {c: (r["rc"], r["lines"][:2]) for c, r in res["checks"].items()})
 # restore evidence files overwritten by the runs against the patched tree
-sh("git -C %s checkout -- evidence" % V)
+sh("git -C %s checkout -- evidence/%s.json" % (V, prop))
